@@ -12,6 +12,7 @@ import (
 	"errors"
 	"io"
 
+	"github.com/buchgr/bazel-remote/v2/zzverif/vmodel"
 	"github.com/buchgr/bazel-remote/v2/zzverif/vsym"
 )
 
@@ -109,6 +110,7 @@ type vDecoder struct {
 	inited bool
 	bad    bool
 	pos    int64 // logical position
+	empty  bool
 	closed bool
 }
 
@@ -125,6 +127,12 @@ func (d *vDecoder) start() {
 	n, err := d.in.Read(buf)
 	if err != nil && err != io.EOF {
 		d.bad = true
+		return
+	}
+	if n == 0 {
+		// an empty input is a valid (empty) sequence of frames
+		d.pos = d.c.N
+		d.empty = true
 		return
 	}
 	s, off, ok := vsym.Prov(buf[:n])
@@ -231,4 +239,170 @@ func (e *vEncoder) ReadFrom(r io.Reader) (int64, error) {
 	}
 	vsym.Stop("encoder ReadFrom: more than 4 reads")
 	return total, nil
+}
+
+// ---- independent specification of the v2 CAS blob header (README / casblob docs):
+//   bytes 0..3   magic 0x184D2A50 (zstd skippable frame), little endian
+//   bytes 4..7   frame size = size of the rest of the header = 21 + 8*numOffsets
+//   bytes 8..15  logical (uncompressed) size, int64 LE
+//   byte  16     compression type: 0 identity, 1 zstandard
+//   bytes 17..20 chunk size, uint32 LE
+//   bytes 21..28 number of table entries (chunks + 1), int64 LE
+//   then the table: int64 LE file offsets of each chunk, plus the file size.
+const (
+	VMagic     = 0x184D2A50
+	VFixedPart = 29
+	VMaxSize   = int64(1) << 40
+)
+
+func VPut(b []byte, at int, v uint64, n int) {
+	for i := 0; i < n; i++ {
+		b[at+i] = byte(v >> (8 * uint(i)))
+	}
+}
+
+// SpecBlob is an arbitrary file conforming to the v2 specification.
+type SpecBlob struct {
+	N      int64 // logical size
+	Comp   uint8
+	Chunk  uint32
+	NOff   int
+	Table  []int64
+	FSize  int64
+	Head   []byte
+	MF     *vmodel.MFile
+	Codec  *VCodec
+	HdrLen int64
+}
+
+// NewSpecBlob installs at path an arbitrary spec-conformant blob file with
+// nOff table entries. For zstandard files the chunk size is any value >= 1
+// (not this build's default) and the number of chunks is ceil(n/chunk).
+// If n is non-nil the logical size is *n.
+func NewSpecBlob(path string, nOff int, comp uint8, n *int64) *SpecBlob {
+	b := &SpecBlob{NOff: nOff, Comp: comp}
+	if n != nil {
+		b.N = *n
+	} else {
+		b.N = vsym.Int64("n")
+	}
+	vsym.Assume(b.N > 0)
+	vsym.Assume(b.N < VMaxSize)
+	b.Chunk = vsym.Uint32("chunk")
+	vsym.Assume(b.Chunk >= 1)
+	b.HdrLen = int64(VFixedPart + 8*nOff)
+	b.Table = make([]int64, nOff)
+	b.Table[0] = b.HdrLen
+	for i := 1; i < nOff; i++ {
+		b.Table[i] = vsym.Int64("off")
+		vsym.Assume(b.Table[i] > b.Table[i-1])
+		vsym.Assume(b.Table[i] < VMaxSize)
+	}
+	b.FSize = b.Table[nOff-1]
+	chunks := int64(nOff - 1)
+	if comp == 1 {
+		c := int64(b.Chunk)
+		vsym.Assume((chunks-1)*c < b.N)
+		vsym.Assume(b.N <= chunks*c)
+	} else {
+		vsym.Assume(b.FSize == b.HdrLen+b.N)
+	}
+	b.Head = make([]byte, b.HdrLen)
+	VPut(b.Head, 0, VMagic, 4)
+	VPut(b.Head, 4, uint64(21+8*nOff), 4)
+	VPut(b.Head, 8, uint64(b.N), 8)
+	b.Head[16] = comp
+	VPut(b.Head, 17, uint64(b.Chunk), 4)
+	VPut(b.Head, 21, uint64(nOff), 8)
+	for i := 0; i < nOff; i++ {
+		VPut(b.Head, VFixedPart+8*i, uint64(b.Table[i]), 8)
+	}
+	b.MF = vmodel.FS.AddFile(path, b.Head, b.FSize)
+	b.Codec = &VCodec{FileID: b.MF.ID, Table: b.Table, Chunk: int64(b.Chunk), N: b.N}
+	return b
+}
+
+// Seg is one run of bytes delivered by a reader: n bytes of source Src from Off.
+type Seg struct {
+	Src string
+	Off int64
+	N   int64
+}
+
+// Drain reads rc to EOF with a huge buffer and returns what it delivered.
+func Drain(rc io.Reader, maxReads int) ([]Seg, error) {
+	var segs []Seg
+	for i := 0; i < maxReads; i++ {
+		buf := vsym.MakeBytes(vmodel.CopyBuf)
+		n, err := rc.Read(buf)
+		if n > 0 {
+			s, off, ok := vsym.Prov(buf[:n])
+			if !ok {
+				s = "?"
+			}
+			segs = append(segs, Seg{s, off, int64(n)})
+		}
+		if err == io.EOF {
+			return segs, nil
+		}
+		if err != nil {
+			return segs, err
+		}
+	}
+	vsym.Stop("reader did not reach EOF within the read bound")
+	return nil, nil
+}
+
+// AssertRange: the segments are exactly bytes [off, off+n) of source src.
+func AssertRange(segs []Seg, src string, off, n int64, tag string) {
+	pos := off
+	for _, s := range segs {
+		vsym.Assert(s.Src == src, tag+"/bytes-from-the-right-source")
+		vsym.Assert(s.Off == pos, tag+"/bytes-contiguous-from-offset")
+		pos += s.N
+	}
+	vsym.Assert(pos == off+n, tag+"/delivers-exactly-the-rest-of-the-blob")
+}
+
+// AssertZstdStream: segs is a sequence of whole frames of blob b (optionally
+// preceded by its header when off == 0, optionally starting with one
+// re-encoded partial first chunk) that decodes to logical bytes [off, n).
+func AssertZstdStream(b *SpecBlob, codec *VCodec, segs []Seg, off int64, tag string) {
+	c := int64(b.Chunk)
+	pos := off
+	for si, s := range segs {
+		if s.Src == b.MF.ID {
+			vsym.Assert(si == len(segs)-1, tag+"/zstd-file-tail-is-last")
+			vsym.Assert(s.Off+s.N == b.FSize, tag+"/zstd-file-tail-runs-to-end-of-file")
+			if s.Off == 0 {
+				vsym.Reach("zstd-read-whole-file-with-header")
+				vsym.Assert(pos == 0, tag+"/zstd-header-only-at-offset-0")
+			} else {
+				vsym.Assert(pos%c == 0, tag+"/zstd-tail-starts-on-chunk-edge")
+				k := pos / c
+				vsym.Assert(k < int64(b.NOff-1), tag+"/zstd-tail-chunk-exists")
+				if k < int64(b.NOff-1) {
+					vsym.Assert(s.Off == b.Table[k], tag+"/zstd-tail-starts-at-frame-of-that-chunk")
+				}
+			}
+			pos = b.N
+		} else {
+			ok := len(codec.Encs) == 1 && s.Src == "enc0" && si == 0
+			vsym.Assert(ok, tag+"/zstd-first-piece-is-the-one-reencoded-frame")
+			if ok {
+				vsym.Reach("zstd-read-recompressed-first-chunk")
+				e := codec.Encs[0]
+				vsym.Assert(e.Known && e.Src == codec.Logical(), tag+"/zstd-reencoded-bytes-come-from-the-decoded-chunk")
+				vsym.Assert(e.SrcOff == pos, tag+"/zstd-reencoded-piece-starts-at-offset")
+				vsym.Assert(s.Off == 0 && s.N == e.Len, tag+"/zstd-reencoded-frame-delivered-whole")
+				k := pos / c
+				end := (k + 1) * c
+				end = vsym.Ite64(end > b.N, b.N, end)
+				vsym.Assert(e.SrcOff+e.SrcLen == end, tag+"/zstd-reencoded-piece-ends-at-chunk-end")
+				pos = end
+			}
+		}
+	}
+	vsym.Assert(pos == b.N, tag+"/zstd-stream-decodes-to-the-rest-of-the-blob")
+	vsym.Assert(len(codec.Bad) == 0, tag+"/codec-fed-only-whole-frames")
 }
